@@ -31,14 +31,27 @@ type solverCfg struct {
 // limit; it only matters for the few obligations neither z3 decides.
 var solvers = []solverCfg{
 	{"z3-new", func(f string, effort int) []string {
-		return []string{"z3-new", "-st", fmt.Sprintf("rlimit=%d", rlimitFor(effort)), "-T:900", f}
+		return []string{"z3-new", "-st", fmt.Sprintf("rlimit=%d", rlimitFor(effort)), hardTimeout(effort), f}
 	}},
 	{"z3", func(f string, effort int) []string {
-		return []string{"z3", "-st", fmt.Sprintf("rlimit=%d", rlimitFor(effort)), "-T:900", f}
+		return []string{"z3", "-st", fmt.Sprintf("rlimit=%d", rlimitFor(effort)), hardTimeout(effort), f}
 	}},
 	{"cvc5", func(f string, effort int) []string {
 		return []string{"cvc5", "--lang=smt2", fmt.Sprintf("--tlimit=%d", 3*effort), f}
 	}},
+}
+
+// hardTimeout is the wall-clock safety net (z3 -T, seconds): eight times the
+// nominal effort, at least 30 s. It only matters when z3 spends its time in a
+// phase its resource counter does not see (observed: a cover query of
+// rsync.Deltify ran for 15 minutes with rlimit=1.5e7); on an idle machine the
+// resource limit always ends a query first.
+func hardTimeout(effortMs int) string {
+	t := effortMs * 8 / 1000
+	if t < 30 {
+		t = 30
+	}
+	return fmt.Sprintf("-T:%d", t)
 }
 
 // rlimitFor converts the tier's nominal effort (milliseconds on an idle
